@@ -81,11 +81,27 @@ CHECKS = {
         note="Load-case semantics transcribed from the docstrings/prose; two documentation ambiguities are accepted in both readings (biaxial "
              "half value without symmetry) or resolved towards the code comment (symmetry fixes the normal component). Coordinates are lattice integers.",
         ref="5/C08"),
+    "C13": dict(
+        engine="Surface",
+        technique="TLA+ incidence/rotation-group specification Surface.tla: TLC decides the face tables extracted from the working tree, the "
+                  "surface/mask selection semantics (recomputed from mesh cells) and geometric closure laws on logged arrays; reference tables "
+                  "built from the rotation group and negative examples in SurfaceMC",
+        text="For each of the six cell types TLC checks that every hard-coded face table renumbers the cell by a proper rotation on the nodes of "
+             "the quadrature face, lists exactly the nodes of one face (corners first) and that all 2d outward directions occur once; by "
+             "equivariance this gives outward area vectors on every valid mesh. Selection of surface faces (node set occurs once) and mask "
+             "restriction are recomputed by TLC for all 512 point masks of a 2x2 quad mesh and sampled masks elsewhere; unit normals, tangents "
+             "orthogonal to normals, closure, divergence theorem against the volume region, per-cell closure, outward orientation and 3-d "
+             "padding are evaluated by TLC on plain/affine/perturbed/curved/L-shaped meshes.",
+        note="Geometric clauses at 2^-20 with a tolerance of 16 + 4 ulp per summed term; the rotation identity is required on the quadrature-face "
+             "nodes only (the remaining nodes do not enter any quantity named in C13; the full-cell identity is checked under C06).",
+        ref="5/C13"),
 }
 
 NOT_YET = {}
 
 ENGINES = [
+    {"name": "Surface", "path": "spec/Surface.tla", "serves_properties": ["C13"],
+     "kind_free_text": "TLA+ incidence structure + proper rotation group; table/selection/geometric laws; SurfaceMC.tla reference and negatives"},
     {"name": "Dof", "path": "spec/Dof.tla", "serves_properties": ["C08"],
      "kind_free_text": "TLA+ index algebra of unknown numbering and boundary partition; DofMC.tla small-scope model; DofTrace.tla validation"},
     {"name": "Solver", "path": "spec/Solver.tla", "serves_properties": ["C07", "C15", "C20"],
